@@ -255,9 +255,9 @@ def _is_import(fi: FuncInfo) -> bool:
 
 def run(ctx: Context, R: Reporter):
     F = Freshness(ctx)
-    rule_a(ctx, R, F)
-    rule_b(ctx, R, F)
-    rule_c(ctx, R, F)
+    R.guard(rule_a, ctx, R, F)
+    R.guard(rule_b, ctx, R, F)
+    R.guard(rule_c, ctx, R, F)
 
 
 def variants():
@@ -279,6 +279,7 @@ def variants():
         Variant("c-history-pop", "bad", insert_before("tempest/steps/reweight.py", "Reweighter.run", "beta_prev = self.state.get_current('beta')", "self.state._history['u'].pop(0)"), ["C17.c"]),
         Variant("c-commit-twice", "bad", insert_after(core, "SamplerCore.execute_iteration", "self.state.commit_current_to_history()", "self.state.commit_current_to_history()"), ["C17.c"]),
         Variant("c-commit-in-branch", "bad", replace_stmt(core, "SamplerCore.execute_iteration", "self.state.commit_current_to_history()", "if save_every is None:\n    self.state.commit_current_to_history()"), ["C17.c"]),
+        Variant("a-results-first-call-shares-cache", "bad", replace_stmt(sm, "StateManager.compute_results", "return {k: self._ensure_copy(v) for k, v in self._results_dict.items()}", "out = {k: v for k, v in self._results_dict.items()}\nself._last = dict(out)\nreturn out"), ["C17.a"]),
         Variant("benign-rename-value", "benign", alpha_rename(sm, "StateManager.get_current", "value", "val"), quick=True),
         Variant("benign-np-copy", "benign", replace_expr(sm, "StateManager._ensure_copy", "value.copy()", "np.array(value)"), quick=True),
         Variant("benign-hoist-hist", "benign", replace_stmt(sm, "StateManager.get_history", "return self._ensure_copy(self._history[key][index])", "batch = self._history[key][index]\nreturn self._ensure_copy(batch)")),
